@@ -44,7 +44,16 @@ asynq.mock.patch entered and left on the function, the synchronous call f(args),
 f.asyncio(..) / f.asynq(..) inside a running fn.asyncio()) while asynq-mode calls of the same key are in flight; tasks that
 were created by one thread are DRIVEN to completion by another (`drive`: .value() on thread th, at top level); bodies blocked
 on asynq's own debug.sync() batch; bound wrappers kept and used again, copy.copy() of a bound wrapper, receiver instances
-that are copy.copy() of each other; top-level activity between two computations (`top2`)."""
+that are copy.copy() of each other; top-level activity between two computations (`top2`).
+
+Round 5 dimensions (reset / abort / completion-from-outside paths; all judged by the existing model and observer): the
+thread-local SCHEDULER of a thread is replaced (`sreset th 0`: asynq.scheduler.reset()) or emptied (`sreset th 1`:
+get_scheduler().reset()) while calls of that thread are in flight - at top level on any thread, inside a computation on helper
+threads (Lean: Op.outside 7 / 8; the key holds the thread, not its scheduler); a computation is ABORTED at its k-th top-level
+batch flush by a raising on_before_batch_flush handler (`abort`: Exception or BaseException), the bodies it left blocked stay in
+flight, the next computation (after a scheduler reset or without one) must get the very same tasks; a task nobody started is
+COMPLETED FROM OUTSIDE (`extdone`: FutureBase.set_value / set_error on the creating or on another thread - an ordinary
+Op.complete of the history)."""
 import hashlib
 import json
 import random
@@ -125,7 +134,15 @@ RULE = ("real asynq programs: 1-3 @deduplicate() functions (function / method on
         "thrown for each deduplicated task it awaited, .value() on a driving thread logs what it returned (`await`); the "
         ".asynq() calls made in asyncio mode are operations (`aioCall`); up to 6 + 1 keygetter probes per function; "
         "non-trivial = at least two calls and at least one call that returned an already existing "
-        "task or re-created a task for a call seen before; distinct by hash of the case")
+        "task or re-created a task for a call seen before; distinct by hash of the case; "
+        "round 5 (reset / abort paths): `sreset` = the thread-local scheduler of a thread replaced (asynq.scheduler.reset()) or "
+        "emptied (get_scheduler().reset()) while calls of that thread are in flight (16% of the outside events, 12% of the "
+        "top-level acts; inside a computation on helper threads), `abort` = the first computation aborted at its k-th "
+        "top-level flush by a raising on_before_batch_flush handler (7% of the cases, k in 1..3, Exception / BaseException, "
+        "75% followed by a scheduler reset) with later computations using the same keys, `extdone` = a never-started task "
+        "completed from outside by set_value / set_error on the creating / another thread (10% of the top-level acts); plus "
+        "180 named schedules of these (5 signatures x replaced / emptied x thread pairs; abort at flush 1 / 2 x kind x "
+        "reset / reset + call / nothing)")
 TRUSTED = [
     "hand-written Lean model AsynqModel.Lib.Dedup tied to the code by this differential run only",
     "Python harness checks/c12.py (token <-> object identity mapping, event log written by the generated bodies - start / "
@@ -169,6 +186,14 @@ ASSUMPTIONS = [
     "f0f10a3); an option that dumps is replaced by KEEP_DEPENDENCIES when an argument of the case cannot be printed",
     "`drive` happens at top level only (no scheduler is running on the main thread), on tasks that have not started; the "
     "acts a body would issue from inside are skipped while it runs on the driving thread",
+    "the scheduler of the MAIN thread is replaced / emptied at top level only (a `sreset 0` generated inside a computation "
+    "happens on helper thread 1: replacing the scheduler that is executing the computation is not a supported use); helper "
+    "threads never have a running scheduler while they are reset. In the compiled build TaskScheduler.reset is `cdef` "
+    "(scheduler.pxd:37, not callable from Python although scheduler.pyi lists it): `emptied` falls back to "
+    "asynq.scheduler.reset() there (feature TaskScheduler.reset-not-exposed-by-this-build). The abort handler raises only "
+    "at a flush made outside every task (not inside a nested .value() of a body); the actors of an aborted computation are "
+    "never resumed (nobody reads their tasks); `extdone` completes never-started tasks only (a started body completed "
+    "from outside would later be resumed by the scheduler: C09/C10's business)",
     "@deduplicate() is applied to @asynq() generator functions only: @asynq(pure=True) functions have no .asynq attribute "
     "(AttributeError at the first call, by construction of PureAsyncDecorator) and @async_proxy() functions may return "
     "futures that are not tasks (no `running` attribute: the second call raises AttributeError; DESIGN.md section 5 C12) - "
@@ -345,7 +370,7 @@ def spell(rng, fi, decl, lc, nthreads, malformed=False):
     return [fi, recv, args, kw, th]
 
 
-NOFN = ("retire", "opt", "gc", "drive")       # acts whose second element is not a function index
+NOFN = ("retire", "opt", "gc", "drive", "sreset", "extdone")       # acts whose second element is not a function index
 # COLLECT_PERF_STATS is in the list since the two defects of the profiling option that made it unusable in mid-flight
 # were repaired in /repo (9ee915e: a task created before the switch must still complete; f0f10a3: an argument that cannot
 # be repr()ed must not fail the task).
@@ -358,13 +383,17 @@ def gen_outside(rng, calls):
     """an event of another feature in mid-flight: a debug / profiling option is switched, the garbage collector runs,
     asynq.mock.patch replaces and restores a function, the synchronous call f(args) of a deduplicated function"""
     r = rng.random()
-    if r < 0.5:
+    if r < 0.45:
         return ["opt", rng.randrange(len(OPTS))]
-    if r < 0.6:
+    if r < 0.55:
         return ["gc"]
-    if r < 0.8:
+    if r < 0.7:
         return ["mock"] + calls(0.0)[:1]
-    return ["sync"] + calls(0.0)
+    if r < 0.84:
+        return ["sync"] + calls(0.0)
+    # round 5: the thread-local scheduler of a thread is replaced (asynq.scheduler.reset()) or emptied
+    # (get_scheduler().reset()); inside a computation this happens on a helper thread (do_sreset)
+    return ["sreset", rng.randrange(3), rng.randrange(2)]
 
 
 def gen_body(rng, calls, outside=False):
@@ -464,12 +493,17 @@ def gen_case(rng):
         acts = []
         for _ in range(rng.choice([1, 2, 3, 4])):
             r = rng.random()
-            if r < 0.4:
+            if r < 0.3:
                 acts.append(["drive", rng.randrange(4), rng.randrange(3)])
-            elif r < 0.55:
+            elif r < 0.4:
+                # a task nobody has started is completed FROM OUTSIDE (set_value / set_error of the public future API)
+                acts.append(["extdone", rng.randrange(4), rng.randrange(2), rng.randrange(3)])
+            elif r < 0.52:
                 acts.append(["aio"] + calls(0.0)[:4] + [rng.randrange(3)])
-            elif r < 0.7:
+            elif r < 0.62:
                 acts.append(gen_outside(rng, calls))
+            elif r < 0.74:
+                acts.append(["sreset", rng.choice([0, 0, 1, 2]), rng.randrange(2)])
             else:
                 acts.append([rng.choice(["call", "call", "callx", "dirty"])] + calls(0.02))
         where = "top2" if (rng.random() < 0.7 or "top" in case) else "top"
@@ -478,6 +512,20 @@ def gen_case(rng):
         case[where] = acts
         if "more" not in case and rng.random() < 0.7:
             case["more"] = [gen_actors([1, 1, 2])]
+    # ---- round 5: reset / abort paths ------------------------------------------------------------------------------
+    if rng.random() < 0.07:
+        # the FIRST computation is aborted: the k-th top-level batch flush raises out of the scheduler (a handler of
+        # on_before_batch_flush - a deadline); what was in flight stays in flight.  Usually the harness then throws the
+        # scheduler away (asynq.scheduler.reset()) or empties it, and a later computation uses the same keys
+        case["abort"] = [rng.choice([1, 1, 2, 3]), rng.randrange(2)]
+        between = [["sreset", 0, rng.randrange(2)]] if rng.random() < 0.75 else []
+        if rng.random() < 0.5:
+            between.append([rng.choice(["call", "callx", "dirty"])] + calls(0.0))
+        case["top2"] = between + list(case.get("top2", []))
+        if not case["top2"]:
+            del case["top2"]
+        if "more" not in case:
+            case["more"] = [gen_actors([1, 1, 2]) for _ in range(rng.choice([1, 1, 2]))]
     return case
 
 
@@ -796,6 +844,63 @@ def interaction_schedules():
     return json.loads(json.dumps(cases))
 
 
+def reset_schedules():
+    """round 5: reset / abort / completed-from-outside paths.  The key of a call is (function, arguments, THREAD): it does
+    not change when the thread's scheduler object is replaced (asynq.scheduler.reset(), what a request / test harness does
+    after an aborted computation) or emptied (TaskScheduler.reset()), and the in-flight period of a call does not end when
+    the computation that awaited it is aborted - only when the task completes, by whatever means"""
+    cases = []
+    one_item = {"steps": [{"pre": [], "y": "item"}], "post": [], "end": "ret"}
+    two_items = {"steps": [{"pre": [], "y": "item"}, {"pre": [], "y": "item"}], "post": [], "end": "ret"}
+    three_items = {"steps": [{"pre": [], "y": "item"}, {"pre": [], "y": "dsync"}, {"pre": [], "y": "item"}], "post": [], "end": "ret"}
+    failing = {"steps": [{"pre": [], "y": "item"}, {"pre": [], "y": "item"}], "post": [], "end": "raise"}
+    for decl in (SIGS[0], SIGS[2], SIGS[4], SIGS[6], SIGS[8]):
+        s1, s2, s3 = two_spellings(decl)
+
+        def on(sp, th, op="call"):
+            return [op, 0] + sp[:3] + [th]
+        base = {"fns": [decl], "ninst": 2}
+        for how in (0, 1):
+            for th, other in ((0, 1), (1, 0), (1, 2)):
+                # (1) created, not started; the scheduler of the creating thread (and then of another thread) is replaced:
+                # the other spelling still gets the very task; dirty() still finds the entry; a computation shares it
+                cases.append(dict(base, bodies=[one_item],
+                                  top=[on(s1, th), on(s2, th), ["sreset", th, how], on(s2, th), on(s3, th, "callx"),
+                                       ["sreset", other, how], on(s1, th), ["sreset", th, 1 - how], on(s3, th),
+                                       on(s3, th, "dirty"), on(s3, th)],
+                                  actors=[[{"acts": [on(s1, th), on(s2, th), on(s3, th)], "wait": "mine"},
+                                           {"acts": [on(s1, th)], "wait": "mine"}]]))
+            # (2) the first computation is aborted at its k-th flush while the call is blocked; the scheduler is replaced /
+            # emptied / kept; the next computation gets the SAME task (the body is not started again), after its
+            # completion the key is free
+            for k in (1, 2):
+                for kind in (0, 1):
+                    for between in ([["sreset", 0, how]], [["sreset", 0, how], on(s2, 0)], []):
+                        if not between and how:
+                            continue
+                        cases.append(dict(base, bodies=[three_items if k == 2 else two_items, one_item], abort=[k, kind],
+                                          actors=[[{"acts": [on(s1, 0), on(s3, 0)], "wait": "mine"}]],
+                                          top2=between,
+                                          more=[[[{"acts": [on(s2, 0)], "wait": "mine"}, {"acts": [on(s1, 0), on(s3, 0)], "wait": "mine"}]],
+                                                [[{"acts": [on(s2, 0), on(s1, 0)], "wait": "mine"}]]]))
+            # (3) inside a computation: a helper thread's scheduler is replaced between two of its calls (unstarted and
+            # blocked tasks of that thread)
+            cases.append(dict(base, bodies=[two_items], actors=[
+                [{"acts": [on(s1, 1), on(s3, 2, "callx")], "wait": "mine"}],
+                [{"acts": [], "wait": "tick"},
+                 {"acts": [["sreset", 1, how], on(s2, 1), ["sreset", 2, how], on(s3, 2), ["sreset", 1, 1 - how], on(s1, 1),
+                           on(s1, 1, "dirty"), on(s2, 1)], "wait": "mine"}]]))
+        # (4) a task nobody started is completed from outside (set_value / set_error) by the creating / another thread:
+        # every reader receives that outcome, the key is free again for the creating thread, only that entry goes
+        for b in (one_item, failing):
+            for creator, by in ((0, 0), (0, 1), (1, 0), (1, 2)):
+                cases.append(dict(base, bodies=[b],
+                                  top=[on(s1, creator, "callx"), on(s3, creator, "callx"), on(s2, creator), ["extdone", 0, 0, by],
+                                       on(s2, creator), on(s3, creator), ["extdone", 0, 1, by], on(s1, creator), on(s3, creator)],
+                                  actors=[[{"acts": [on(s1, creator), on(s2, creator), on(s3, creator)], "wait": "mine"}]]))
+    return json.loads(json.dumps(cases))
+
+
 def sharers_case(n):
     """n callers (alternating spellings) of only three keys - one of them hot - in the same yield, and again while blocked"""
     sig = {"kind": "func", "pos": [[1, None], [2, 1]], "kwonly": [], "varargs": False, "varkw": False}
@@ -881,7 +986,7 @@ def corpus():
 def plan(tier, seed):
     rng = random.Random(seed * 1000003 + 12)
     n = 6000 if tier == "quick" else 60000
-    cases = corpus() + named_schedules() + thread_schedules() + toplevel_schedules() + interaction_schedules()
+    cases = corpus() + named_schedules() + thread_schedules() + toplevel_schedules() + interaction_schedules() + reset_schedules()
     cases += [sharers_case(n) for n in ([300, 2500] if tier == "quick" else [300, 2500, 20000])]
     frng = random.Random(seed * 7919 + 1212)
     cases += fanout_cases(tier, frng)
@@ -910,7 +1015,7 @@ def shrink(case):
                 if not c[key]:
                     del c[key]
                 yield c
-    for key in ("cls", "instcopy"):
+    for key in ("cls", "instcopy", "abort"):
         if case.get(key):
             c = clone()
             del c[key]
@@ -1702,10 +1807,63 @@ def run_case(case):
             log.append("(obs (await %d) (got %s) %d)" % (t, outcome_str(v, None), size()))
         feat("reader:value()-on-driving-thread")
 
+    in_comp = [False]        # a computation is running on the main thread (its scheduler must not be replaced under it)
+    resets = {}
+
+    def do_sreset(th, how):
+        """the thread-local scheduler of thread th is REPLACED (how 0: asynq.scheduler.reset(), what a harness does after an
+        aborted computation) or EMPTIED (how 1: asynq.scheduler.get_scheduler().reset(), what the MAX_TASK_STACK_SIZE guard
+        does).  The key of a call holds the thread, not its scheduler: whatever is in flight stays in flight (Lean:
+        Op.outside 7 / 8).  While a computation runs on the main thread the event happens on a helper thread (helper
+        threads only create tasks and drive them at top level: no scheduler of theirs is ever running here)."""
+        th = th % 3
+        if th == 0 and (in_comp[0] or threading.current_thread() is not main_thread):
+            th = 1
+        if how % 2 == 0:
+            on_thread(th, asynq.scheduler.reset)
+        else:
+            def empty():
+                r = getattr(asynq.scheduler.get_scheduler(), "reset", None)
+                if r is None:
+                    # the compiled build declares it `cdef reset(self)` (scheduler.pxd:37): not callable from Python
+                    feat("TaskScheduler.reset-not-exposed-by-this-build")
+                    asynq.scheduler.reset()
+                else:
+                    r()
+            on_thread(th, empty)
+        resets[th] = True
+        feat("scheduler-%s:%s" % ("replaced" if how % 2 == 0 else "emptied", "main-thread" if th == 0 else "helper-thread"))
+        mine = [t for t in range(len(objs)) if made_on_tok.get(t) == thtok(th) and t not in done]
+        if mine:
+            feat("scheduler-reset-while-calls-of-that-thread-are-in-flight")
+            if any(t in started for t in mine):
+                feat("scheduler-reset-while-a-body-of-that-thread-is-blocked")
+        outside(7 + how % 2)
+
+    def do_extdone(j, how, th):
+        """top level: a task that was created and never started is completed FROM OUTSIDE (FutureBase.set_value / set_error,
+        the public future API) on thread th: an ordinary completion of the history (Lean: Op.complete; the subscriber
+        logs it) - afterwards the key is free again for the thread that created the task"""
+        cand = [t for t in range(len(objs)) if t not in started and t not in done and not objs[t].is_computed()]
+        if not cand:
+            return
+        t = cand[j % len(cand)]
+        th = th % 3
+        feat("completed-from-outside-by-" + ("creating-thread" if thtok(th) == made_on_tok.get(t) else "another-thread"))
+        try:
+            if how % 2 == 0:
+                on_thread(th, lambda: objs[t].set_value(("v", 500 + t % 400)))
+            else:
+                on_thread(th, lambda: objs[t].set_error(UserErr(500 + t % 400)))
+        except Exception as e:  # noqa
+            feat("completed-from-outside-raised-" + type(e).__name__)
+
     def do_outside(a):
         if not alive[0]:
             return True
-        if a[0] == "opt":
+        if a[0] == "sreset":
+            do_sreset(a[1], a[2])
+        elif a[0] == "opt":
             do_opt(a[1])
         elif a[0] == "gc":
             do_gc()
@@ -1886,6 +2044,8 @@ def run_case(case):
                 continue
             if a[0] == "drive":
                 do_drive(a[1], a[2])
+            elif a[0] == "extdone":
+                do_extdone(a[1], a[2], a[3])
             elif a[0] == "aio":
                 do_aio(a[1], a[2], a[3], a[4], a[5])
             elif a[0] == "dirty":
@@ -1905,10 +2065,32 @@ def run_case(case):
             if computation[0] == 1:
                 top_level(case.get("top2", []))
             computation[0] += 1
+            hook = None
+            if case.get("abort") and computation[0] == 1:
+                # the k-th top-level batch flush of this computation raises out of the scheduler (a deadline handler)
+                k_abort, kind_abort = case["abort"][0], case["abort"][1]
+                flushes = [0]
+
+                def abort_handler(batch):
+                    if not alive[0] or asynq.scheduler.get_active_task() is not None:
+                        return
+                    flushes[0] += 1
+                    if flushes[0] == k_abort:
+                        feat("computation-aborted-at-flush")
+                        raise (BaseErr if kind_abort % 2 else UserErr)(UNKNOWN)
+                hook = asynq.scheduler.get_scheduler().on_before_batch_flush
+                hook.subscribe(abort_handler)
+            in_comp[0] = True
             try:
                 root(actors)
             except (UserErr, BaseErr):
-                pass
+                if hook is not None and feats.get("computation-aborted-at-flush"):
+                    if any(t in started and t not in done for t in range(len(objs))):
+                        feat("computation-aborted-while-a-body-is-blocked")
+            finally:
+                in_comp[0] = False
+                if hook is not None:
+                    hook.unsubscribe(abort_handler)
         if computation[0] == 1:
             top_level(case.get("top2", []))
     finally:
@@ -1916,6 +2098,11 @@ def run_case(case):
         for w in list(workers.values()) + parked:
             w.stop()
         DeduplicateDecorator.tasks.clear()
+        if case.get("abort") or resets.get(0):
+            asynq.scheduler.reset()          # an aborted computation leaves its task stack in the scheduler: start clean
+            objs[:] = []
+            slots[:] = []
+            gc.collect()                     # ... and its suspended generators are closed HERE, not by a `gc` act of a later case
         for name, v in saved_opts.items():
             setattr(dbg, name, v)
         asynq.debug.stdout, asynq.debug.stderr = sink
